@@ -69,6 +69,8 @@ def run(ctx):
                    detail='regeneration method no longer writes README.txt')
     committer = find_committer(ctx)
     d1_committer(ctx, committer, a_regen)
+    from .C18 import arrayinfo_always_fresh
+    arrayinfo_always_fresh(ctx, 'D1')     # the README generator reads the descriptor through Array._arrayinfo
     d1_asarray(ctx, a_regen)
     d1_d2_ragged(ctx, committer, a_regen, r_regen)
     d3_single_source(ctx)
